@@ -157,7 +157,8 @@ class EngineWorld:
     tags, emitter events, message builder, request handlers, the hardware layer and the probe commands."""
 
     def __init__(self, res: RunResult, rec: Recorder, *, recovery: bool = False, archiver: bool = False,
-                 data_log_interval: float = 5.0, fs=None) -> None:
+                 data_log_interval: float = 5.0, fs=None, extra_tags: list | None = None,
+                 extra_cmds: list | None = None) -> None:
         self.res = res
         self.rec = rec
         self.clock = SimClock()
@@ -171,6 +172,8 @@ class EngineWorld:
         self._patch = patched(*triples)
         self._patch.__enter__()
         self.closed = False
+        self.extra_tags = extra_tags
+        self.extra_cmds = extra_cmds
         try:
             self._build(recovery, archiver, data_log_interval)
         except BaseException:
@@ -192,7 +195,8 @@ class EngineWorld:
         self.hw = SimHardware()
         self.plog = ProbeLog()
         self.plog.on_event = self._probe_event
-        self.uod = build_probe_uod(self.hw, self.plog, self.clock.read, data_log_interval)
+        self.uod = build_probe_uod(self.hw, self.plog, self.clock.read, data_log_interval,
+                                   extra_tags=self.extra_tags, extra_cmds=self.extra_cmds)
         while not m_emb.frontend_logging_queue.empty():
             m_emb.frontend_logging_queue.get_nowait()
         timing = EngineTiming(_SimClockObj(self.clock), NullTimer(), 0.1, 1.0)
